@@ -324,6 +324,20 @@ fn handle_established(
     let mut send_ack = false;
     let recv_cap = k.recv_buf_cap;
 
+    // New data for a stream the application has already dropped: nobody
+    // will ever read it. As on close with unread data, the connection is
+    // reset instead of letting the bytes pile up behind a window that can
+    // never open again (two such orphans would probe each other for ever).
+    {
+        let st = k.lookup(fd).unwrap();
+        let tcb = st.tcb.as_ref().unwrap();
+        if st.fd_closed && !s.payload.is_empty() && s.seq == tcb.rcv_nxt && !tcb.peer_fin {
+            emit_rst(k, local, remote, s);
+            abort_with(k, fd, AbortReason::Reset);
+            return;
+        }
+    }
+
     {
         let st = k.lookup_mut(fd).unwrap();
         let tcb = st.tcb.as_mut().unwrap();
